@@ -32,8 +32,9 @@ def gen_and_replay(prop, tier, module, kind, spaces, invariants, rule, level="mo
         with open(vec_path, "w") as fall:
             for si, sp in enumerate(spaces):
                 part = vec_path + f".{si}"
-                gen = tlc_gen(module, sp["constants"], sp.get("invariants", invariants), sp.get("nshards", 16), part, timeout=timeout,
-                              run_prefix=f"{prop}_{tier}_{si}", simulate=sp.get("simulate"), depth=sp.get("depth", 20))
+                gen = tlc_gen(sp.get("module", module), sp["constants"], sp.get("invariants", invariants), sp.get("nshards", 16), part, timeout=timeout,
+                              run_prefix=f"{prop}_{tier}_{si}", simulate=sp.get("simulate"), depth=sp.get("depth", 20),
+                              **({"spec": sp["spec"]} if sp.get("spec") else {}))
                 if gen["violated"]:
                     # a specification-level invariant failed: the spec itself is inconsistent -> tool error,
                     # not a verdict about parol
@@ -42,8 +43,8 @@ def gen_and_replay(prop, tier, module, kind, spaces, invariants, rule, level="mo
                     raise ToolError(f"{module}: no vectors generated in space {si} (vacuous run)")
                 seen = set()
                 with open(part) as f:
-                    for l in f:
-                        if l in seen:
+                    for li, l in enumerate(f):
+                        if l in seen or li % sp.get("every", 1):
                             continue
                         seen.add(l)
                         fall.write(l)
@@ -160,8 +161,11 @@ def c06(prop, tier, replay):
 
 def c07(prop, tier, replay):
     return gen_and_replay(
-        prop, tier, "Gen_LL", "c07", spaces(tier, LL_EXTRA), ["Emit"],
-        rule="same grammar universe as C05 (those that are strong LL(K), K<=3); per non-terminal TLC's lookahead sets "
+        prop, tier, "Gen_LL", "c07", spaces(tier, LL_EXTRA) + [
+            {"module": "Gen_FamLL", "constants": {"NTerm": 2, "L": 3, "LangN": 3, "MaxK": 3}, "invariants": ["Emit", "MinKIsSeparation"],
+             "nshards": 9, "every": 4 if tier == "quick" else 1, "spec": "Spec"}], ["Emit"],
+        rule="same grammar universe as C05 (those that are strong LL(K), K<=3) plus the lookahead-set families of FamEnum.tla "
+             "(S: X | Y over all assignments of {a,b}^3: arbitrary two-coloured tries, k = 1..3); per non-terminal TLC's lookahead sets "
              "LaSet(G,k,p) at the minimal k are the expected language of the automaton; the harness walks the unminimised "
              "LookaheadDFA and the compiled (minimised) automaton of the export model on EVERY string over the terminals "
              "(optionally closed by $) up to length k+1: the state reached predicts p iff the string is in LaSet(p), "
